@@ -182,6 +182,24 @@ func Calls(w *vt.W, rng *rand.Rand, n int, small bool) {
 				ev["where"] = where
 				d := mk()
 				o := linearOf(q, other, "o").(sliceable)
+				if rng.Intn(3) == 0 {
+					// both sequences are views of one array, as after cutting one read in two: the destination first, with
+					// room behind it, the joined-in sequence two letters further on
+					switch dl := d.Slice().(type) {
+					case alphabet.Letters:
+						ol := o.Slice().(alphabet.Letters)
+						back := make(alphabet.Letters, 0, len(dl)+2+len(ol))
+						back = append(append(append(back, dl...), 'n', 'n'), ol...)
+						d.SetSlice(back[:len(dl)])
+						o.SetSlice(back[len(dl)+2:])
+					case alphabet.QLetters:
+						ol := o.Slice().(alphabet.QLetters)
+						back := make(alphabet.QLetters, 0, len(dl)+2+len(ol))
+						back = append(append(append(back, dl...), alphabet.QLetter{L: 'n'}, alphabet.QLetter{L: 'n'}), ol...)
+						d.SetSlice(back[:len(dl)])
+						o.SetSlice(back[len(dl)+2:])
+					}
+				}
 				err := sequtils.Join(d.(sequtils.Joinable), o.(sequtils.Joinable), where)
 				dst = d
 				finish(err)
